@@ -104,12 +104,14 @@ let builder_case ?(timed=false) id ops_s tf_s =
        obs id "GN" (str_ints gi.gi_nodes); obs id "GE" (str_edges gi.gi_edges);
        obs id "GI" (str_ints (gi_iter gi)); obs id "GR" (str_ints (gi_iter_rev gi));
        obs id "GY" (yaml_obs (gi_yaml gi));
-       (* malformed stream: one more edge triple, target not a node / endpoints nodes *)
+       (* malformed stream: one more edge triple, target not a node / an edge that keeps the value acyclic *)
        let n = List.length gi.gi_nodes in
        let read es = match gi_parse (gi_yaml { gi with gi_edges = gi.gi_edges @ es }) with
          | Some g2 -> Printf.sprintf "ok %d" (List.length g2.gi_edges) | None -> "E" in
        obs id "GYB" (read [((nat_of_int 0, nat_of_int n), Logic)]);
-       if n >= 1 then obs id "GYG" (read [((nat_of_int 0, nat_of_int (n - 1)), Data)]);
+       (* from the first to the last function of iter(): cannot close a cycle *)
+       (let it = gi_iter gi in
+        if n >= 2 then obs id "GYG" (read [((List.hd it, List.nth it (n - 1)), Data)]));
        (* GS: through the YAML text (Yaml.gi_parse); GS2: through petgraph's serialisation structure *)
        (match gi_parse (gi_yaml gi) with
         | Some gi2 ->
